@@ -73,7 +73,9 @@ static inline carquet_schema_t* build_schema(const Table& t, carquet_status_t* s
     carquet_schema_t* s = cq::schema_create(&err);
     if (!s) { *st = err.code ? err.code : CARQUET_ERROR_OUT_OF_MEMORY; return nullptr; }
     for (auto& c : t.cols) {
-        carquet_status_t r = cq::schema_add_column(s, c.name.c_str(), to_cq_type(c.type), nullptr, (carquet_field_repetition_t)c.rep, c.tlen);
+        carquet_logical_type_t lt; memset(&lt, 0, sizeof lt); bool has_lt = false;
+        if (c.logical == 10) { has_lt = true; lt.id = CARQUET_LOGICAL_INTEGER; lt.params.integer.bit_width = (int8_t)c.lp1; lt.params.integer.is_signed = c.lp2 != 0; }
+        carquet_status_t r = cq::schema_add_column(s, c.name.c_str(), to_cq_type(c.type), has_lt ? &lt : nullptr, (carquet_field_repetition_t)c.rep, c.tlen);
         if (r != CARQUET_OK) { *st = r; cq::schema_free(s); return nullptr; }
     }
     *st = CARQUET_OK;
